@@ -318,3 +318,94 @@ def rust_support(variants, lay, tw):
                 o.append("        OP_%s => Some(OP_%s)," % (n, t))
         o.append("        _ => None,\n    }\n}")
     return '\n'.join(o) + '\n'
+
+
+# ------------------------------------------------------------------ Verus generation
+
+def _vpat(name, info, prefix):
+    return _pat(name, info, prefix)
+
+
+def verus_support(variants, lay, tw):
+    """Spec functions over the sliced `enum Instr`, generated for Verus."""
+    names = list(variants)
+    o = ["// ===== generated from the sliced `enum Instr` (%d variants), `instr_to_vminstr` and the VM arms =====" % len(names)]
+    # reg_at
+    o.append("spec fn reg_at(i: Instr, pos: int) -> Option<Reg> {\n    match i {")
+    for n in names:
+        info = variants[n]
+        idx = [k for k, (_, t) in enumerate(info['fields']) if t == 'Reg']
+        if not idx:
+            continue
+        body = ' else '.join('if pos == %d { Some(a%d) }' % (k, k) for k in idx) + ' else { None }'
+        o.append("        %s => %s," % (_vpat(n, info, 'a'), body))
+    o.append("        _ => None,\n    }\n}")
+    # with_reg
+    o.append("/// `i` with the register operand at tuple position `pos` replaced by `r` (identity if there is none)")
+    o.append("spec fn with_reg(i: Instr, pos: int, r: Reg) -> Instr {\n    match i {")
+    for n in names:
+        info = variants[n]
+        idx = [k for k, (_, t) in enumerate(info['fields']) if t == 'Reg']
+        if not idx:
+            continue
+        alts = []
+        for k in idx:
+            args = ', '.join(('r' if j == k else 'a%d' % j) for j in range(len(info['fields'])))
+            alts.append('if pos == %d { Instr::%s(%s) }' % (k, n, args))
+        o.append("        %s => %s else { i }," % (_vpat(n, info, 'a'), ' else '.join(alts)))
+    o.append("        _ => i,\n    }\n}")
+    for key, doc in (('src1', 'register fetched FIRST by the VM arm, before any other stack access'),
+                     ('src2', 'register fetched directly after src1'),
+                     ('dest', 'register written by the LAST stack access of the VM arm')):
+        o.append("/// from vm.rs step(): tuple position of the %s" % doc)
+        o.append("spec fn %s_pos(i: Instr) -> Option<int> {\n    match i {" % key)
+        for n in names:
+            v = lay[n][key]
+            if v is not None:
+                info = variants[n]
+                p = 'Instr::%s' % n + ('' if not info['fields'] else ' { .. }' if info['kind'] == 'struct' else '(..)')
+                o.append("        %s => Some(%dint), // vm %s: %s" % (p, v, lay[n]['vm'], lay[n]['events']))
+        o.append("        _ => None,\n    }\n}")
+    o.append("/// from instr_to_vminstr: the opcode carries a constant-table immediate (int or float)")
+    o.append("spec fn imm_form(i: Instr) -> bool {\n    match i {")
+    for n in names:
+        im = lay[n]['imm']
+        if im and lay[n]['src1'] is not None:
+            info = variants[n]
+            o.append("        Instr::%s(..) => true," % n)
+    o.append("        _ => false,\n    }\n}")
+    # twins by NAME, immediate placed at the position of the register fetched first
+    for kind, ity in (('int', 'AbraInt'), ('float', 'String')):
+        o.append("/// Imm twin by opcode NAME (X -> XImm; ArrayPush -> ArrayPushIntImm): the immediate takes the place of\n"
+                 "/// the register the VM arm of X fetches first, every other operand is carried over")
+        o.append("spec fn twin_%s(i: Instr, k: %s) -> Option<Instr> {\n    match i {" % (kind, ity))
+        for n, (t, kd) in tw.items():
+            if kd != kind:
+                continue
+            info, tinfo = variants[n], variants[t]
+            p = lay[n]['src1']
+            if p is None:
+                raise S.SliceError("twin %s: VM arm has no first-fetched register" % n)
+            if len(info['fields']) != len(tinfo['fields']):
+                raise S.SliceError("twin %s/%s: arity differs" % (n, t))
+            for j, ((_, ta), (_, tb)) in enumerate(zip(info['fields'], tinfo['fields'])):
+                want = ity if j == p else ta
+                if tb != want:
+                    raise S.SliceError("twin %s/%s: operand %d has type %s, expected %s" % (n, t, j, tb, want))
+            # the twin's VM arm must fetch the remaining register first and write the same dest
+            if lay[t]['src1'] != lay[n]['src2'] or lay[t]['dest'] != lay[n]['dest'] or lay[t]['src2'] is not None \
+                    or not lay[t]['imm'] or lay[t]['imm'][1] != p:
+                raise S.SliceError("twin %s/%s: VM operand layouts do not correspond" % (n, t))
+            args = ', '.join(('k' if j == p else 'a%d' % j) for j in range(len(info['fields'])))
+            o.append("        %s => Some(Instr::%s(%s))," % (_vpat(n, info, 'a'), t, args))
+        o.append("        _ => None,\n    }\n}")
+    return '\n'.join(o) + '\n'
+
+
+def reflect_matches(impl_text, method):
+    """`fn m(&self) -> bool { matches!(self, PATS) }`  ->  PATS (text)."""
+    m = re.search(r'^    fn %s\(&self\) -> bool \{\s*matches!\(\s*self,\s*(.*?)\)\s*\}' % method, impl_text, re.S | re.M)
+    if not m:
+        raise S.SliceError("impl Instr::%s is not a single matches!(self, ..)" % method)
+    pats = re.sub(r'//[^\n]*', '', m.group(1)).strip().rstrip(',')
+    return pats
